@@ -125,6 +125,45 @@ Theorem C08_rolling_oracle_rejects_wrong_answer : forall prefer lo ve answers t 
 Proof. exact tp_roll_answers_rejects_wrong. Qed.
 Print Assumptions C08_rolling_oracle_rejects_wrong_answer.
 
+(* what C08_rolling_updates cannot say because the code does not do it - both reproduced on the real objects through
+   the real UpdateTimerHandler (known findings reference-started-later, include-of-excluding-period):
+   (1) the referenced periods are read as they were at the last round that recomputed, NOT as they are now: a period whose
+       own segments reach past now + 24 h returns early from UpdateRegion round after round and merges nothing, so an
+       excluded period that was started after it is ignored although all hypotheses hold *)
+Theorem C08_rolling_current_view_refuted :
+  let upd := fun b e : Z => [(b, e + 50000)] in
+  let hz := fun e : Z => e + 50000 in
+  let ownP := fun _ : Z => true in
+  let x := [(1000, 2000)] in
+  let r0 : tp_rround := (0, [], [[]]) in
+  let rs : list tp_rround := [(300, [], [x]); (600, [], [x]); (900, [], [x])] in
+  (forall b e t, tp_inside_segs (upd b e) t = true -> ownP t = true) /\
+  (forall b e t, b <= e -> b <= t < hz e -> tp_inside_segs (upd b e) t = ownP t) /\
+  (forall e, e <= hz e) /\
+  (forall b e sg, In sg (upd b e) -> snd sg <= hz e) /\
+  tp_round_ok hz r0 /\ tp_env_ok hz r0 rs /\
+  snd (tp_roll upd true r0 rs) = r0 /\
+  tp_is_inside (fst (tp_roll upd true r0 rs)) 1500 = true /\
+  tp_region_spec true (ownP 1500) (tp_inside_any [] 1500) (tp_inside_any [x] 1500) = false.
+Proof. exact tp_rolling_current_view_refuted. Qed.
+Print Assumptions C08_rolling_current_view_refuted.
+
+(* (2) tp_round_mono cannot be dropped: what an included period wrongly reported for one round (it excludes a third period
+       that is updated after it) stays in the including period for good *)
+Theorem C08_rolling_needs_monotone_refuted :
+  let upd := fun _ _ : Z => @nil tp_seg in
+  let hz := fun e : Z => e in
+  let r0 : tp_rround := (0, [[(0, 86400)]], []) in
+  let r1 : tp_rround := (4000, [[(0, 90400)]], []) in
+  let r2 : tp_rround := (4300, [[(0, 90000); (90400, 90700)]], []) in
+  tp_round_ok hz r0 /\ tp_round_ok hz r1 /\ tp_round_ok hz r2 /\
+  snd (tp_roll upd true r0 [r1; r2]) = r2 /\
+  tp_ve_num (fst (tp_roll upd true r0 [r1; r2])) = 90700 /\
+  tp_is_inside (fst (tp_roll upd true r0 [r1; r2])) 90200 = true /\
+  tp_region_spec true false (tp_inside_any (tp_rr_incs r2) 90200) (tp_inside_any (tp_rr_excs r2) 90200) = false.
+Proof. exact tp_rolling_needs_monotone_refuted. Qed.
+Print Assumptions C08_rolling_needs_monotone_refuted.
+
 (* not vacuous: "always" (own = everything, the update function returns the region itself) excluding a period that is
    updated AFTER it in every round: the excluded stretch of the second day, which the excluded period computes only
    after "always" has computed that region, is outside once the next round has run *)
